@@ -396,6 +396,10 @@ func (p *c03) Run(i int) (res fw.Result) {
 }
 
 func (p *c03) Rule() string {
+	return p.ruleBase() + " " + "Round 12: comment bodies made of the characters delimiters are made of (#, ##, ###, ' x #', {#, #{, }, {, %, -#, #-, --, {{, {%): a comment ends at the first #} and nowhere else."
+}
+
+func (p *c03) ruleBase() string {
 	return "cases: seeded structure trees whose leaves are mostly literal chunks (ASCII, 2/3/4-byte UTF-8, LF/CRLF/TAB, lone { } % #, closing delimiters }} %} #} -}} , quotes, U+2028, DEL; never forming an opening delimiter; a lone { also as the very last byte of the template) interleaved with prints of literals, variables named like tag keywords (verbatim, endverbatim, if, block, ...) printed, assigned, assigned from and used as conditions, block() calls on completed blocks (printed, assigned, concatenated), comments (multi-line, containing {{ / {% / #), verbatim bodies (containing prints, tags, comments, unclosed quotes, lone delimiters, a nested verbatim opener) and nested inside if/elseif/else, for/else, block, set-capture (printed afterwards), filter sections (bracket filters) and macro bodies to depth 4; every 10th case is a delimiter-free text that must render to itself; odd cases are spelled without blanks inside delimiters ({%if x%}), even cases canonically. Oracle: byte-exact equality with the reference model's output. Plus 7 templates that define a block name twice: refused, or rendered with every text run once and in order. Non-trivial = >=2 chunks inside nested bodies (or a delimiter-free text); distinct = construct path and alphabet class of every chunk."
 }
 
